@@ -1,11 +1,48 @@
 import Solvor.Sat.CdclLoop
 import Solvor.Sat.CdclH3
 import Solvor.Sat.CdclE
+import Solvor.Sat.CdclFuel
 /-! Sat.CdclMain: the loop invariant through `step` / `run`, its establishment by the set-up code of
 `solve`, and the resulting statement about every assignment `Cdcl.solve` returns. -/
 namespace Solvor.Sat.Cdcl
 
-structure LoopInv (F : List (List Int)) (as : List Int) (L : Loop) : Prop where
+theorem pend_le_one (r : PRes) : pend r ≤ 1 := by cases r <;> simp [pend]
+
+/-- the arithmetic of the "conflict budget used up" regime: once `conflicts ≥ max_conflicts` (left disjunct
+false) the sum `learned + decision level` no longer grows -/
+theorem reg_step {mc sl n LT a d D0 T lvl c2 c4 p : Nat} (hlt : LT ≤ c2) (hc4 : c4 = c2 + p) (hp : p ≤ 1)
+    (ha : a ≤ sl) (hd : d ≤ D0 + (LT + a) * (n + 2) + T) (hT : T ≤ n + 1) (hlvl : lvl + D0 ≤ d)
+    (hreg : c2 < mc ∨ LT + lvl ≤ mc + loopDmax mc sl n) :
+    c4 < mc ∨ LT + lvl ≤ mc + loopDmax mc sl n := by
+  by_cases h4 : c4 < mc
+  · exact Or.inl h4
+  · refine Or.inr ?_
+    rcases hreg with h2 | h2
+    · have hLT : LT + a ≤ mc + sl := by omega
+      have := Nat.mul_le_mul_right (n + 2) hLT
+      unfold loopDmax
+      omega
+    · exact h2
+
+theorem d_step {X LT a n d D0 T T' : Nat} (hX : X = LT + a + 1) (hd : d ≤ D0 + (LT + a) * (n + 2) + T)
+    (hT : T ≤ n + 1) : d ≤ D0 + X * (n + 2) + T' := by
+  have : (LT + a + 1) * (n + 2) = (LT + a) * (n + 2) + (n + 2) := Nat.succ_mul _ _
+  subst hX
+  omega
+
+theorem iters_lt {mc sl n LT a d D0 T it lvl c p : Nat} (hit : it + D0 = d + LT + a) (hlt : LT + p ≤ c) (ha : a ≤ sl)
+    (hd : d ≤ D0 + (LT + a) * (n + 2) + T) (hT : T ≤ n + 1) (hreg : c < mc ∨ LT + lvl ≤ mc + loopDmax mc sl n) :
+    it < loopFuel mc sl n := by
+  have hLT : LT + a ≤ mc + loopDmax mc sl n + sl := by rcases hreg with h | h <;> omega
+  have h1 := Nat.mul_le_mul_right (n + 3) hLT
+  have h2 : (LT + a) * (n + 3) = (LT + a) * (n + 2) + (LT + a) := Nat.mul_succ _ _
+  unfold loopFuel
+  omega
+
+/-- the loop invariant; the fields `c_*` count: iterations = decisions + learned clauses + solutions (`D0` =
+the decision counter before the loop), every learned clause was paid for by a conflict, and the bounds on
+decisions / decision level that make `loopFuel` iterations enough -/
+structure LoopInv (F : List (List Int)) (as : List Int) (P : Params) (D0 : Nat) (L : Loop) : Prop where
   good : ∀ m ∈ L.all.toList, GoodSol F as m
   asm : L.st.assumptions = as
   aok : ∀ a ∈ as, a ≠ 0 ∧ a.natAbs ≤ L.st.nVars
@@ -15,6 +52,14 @@ structure LoopInv (F : List (List Int)) (as : List Int) (L : Loop) : Prop where
   einv : EInv F L.st L.ever
   noblk : L.all.size = 0 → L.st.nBlocking = 0
   after : After F L.st L.conflict
+  nf : L.conflict ≠ .fuel
+  c_it : L.iters + D0 = L.st.decisions + L.learnedTotal + L.all.size
+  c_lt : L.learnedTotal + pend L.conflict ≤ L.st.conflicts
+  c_a : L.all.size ≤ P.solutionLimit
+  c_d : L.st.decisions ≤ D0 + (L.learnedTotal + L.all.size) * (L.st.nVars + 2) + L.st.trail.size
+  c_lvl : L.st.trailLim.size + D0 ≤ L.st.decisions
+  c_reg : L.st.conflicts < P.maxConflicts ∨
+    L.learnedTotal + L.st.trailLim.size ≤ P.maxConflicts + loopDmax P.maxConflicts P.solutionLimit L.st.nVars
 
 /-- every assignment in the result is good, INFEASIBLE is only reported for an unsatisfiable input,
 OPTIMAL comes with an assignment, MAX_ITER only with an exhausted budget -/
@@ -23,7 +68,8 @@ def OutGood (F : List (List Int)) (as : List Int) (P : Params) (o : Out) : Prop 
   (o.status = .INFEASIBLE → ¬ ∃ σ, Solvor.Sat.Models σ F as) ∧
   (o.status = .OPTIMAL → o.solution.isSome = true) ∧
   (o.status = .MAX_ITER → P.maxConflicts ≤ o.conflicts ∨ P.maxRestarts ≤ o.restarts) ∧
-  (o.status = .OPTIMAL ∨ o.status = .INFEASIBLE ∨ o.status = .MAX_ITER ∨ o.status = .UNBOUNDED)
+  (o.status = .OPTIMAL ∨ o.status = .INFEASIBLE ∨ o.status = .MAX_ITER ∨ o.status = .UNBOUNDED) ∧
+  o.note ≠ "FUEL"
 
 theorem finish_good {F as P} (L : Loop) (status : Gen.Status) (fuel : Nat)
     (hst : (status = .OPTIMAL ∧ L.all.size > 0) ∨
@@ -42,7 +88,7 @@ theorem finish_good {F as P} (L : Loop) (status : Gen.Status) (fuel : Nat)
   unfold finish
   split
   · rename_i hpos
-    refine ⟨?_, ?_, fun hs => absurd hs hne, fun _ => by simp [mkOut], hmax, hset⟩
+    refine ⟨?_, ?_, fun hs => absurd hs hne, fun _ => by simp [mkOut], hmax, hset, by simp [mkOut]⟩
     · intro m hm
       simp only [mkOut, Option.some.injEq] at hm
       subst hm
@@ -51,7 +97,7 @@ theorem finish_good {F as P} (L : Loop) (status : Gen.Status) (fuel : Nat)
       simp only [mkOut, Option.some.injEq] at hms
       subst hms; exact h m hm
   · rename_i hz
-    refine ⟨?_, ?_, fun hs => absurd hs hne, ?_, hmax, hset⟩
+    refine ⟨?_, ?_, fun hs => absurd hs hne, ?_, hmax, hset, by simp [mkOut]⟩
     · intro m hm; simp [mkOut] at hm
     · intro ms hms; simp [mkOut] at hms
     · intro ho
@@ -60,8 +106,9 @@ theorem finish_good {F as P} (L : Loop) (status : Gen.Status) (fuel : Nat)
       · have : (mkOut L status none none fuel).status = status := rfl
         rw [this, h1] at ho; cases ho
 
-theorem giveUp_good {F as P} (L : Loop) (fuel : Nat) (note : String) : OutGood F as P (giveUp L fuel note) := by
-  unfold giveUp; refine ⟨?_, ?_, ?_, ?_, ?_, Or.inr (Or.inr (Or.inr rfl))⟩
+theorem giveUp_good {F as P} (L : Loop) (fuel : Nat) (note : String) (hnote : note ≠ "FUEL") :
+    OutGood F as P (giveUp L fuel note) := by
+  unfold giveUp; refine ⟨?_, ?_, ?_, ?_, ?_, Or.inr (Or.inr (Or.inr rfl)), hnote⟩
   · intro m hm; simp [mkOut] at hm
   · intro ms hms; simp [mkOut] at hms
   · intro hs; simp [mkOut] at hs
@@ -76,7 +123,8 @@ theorem finishInf_good {F as P} (usePure : Bool) (L : Loop) (fuel : Nat)
   unfold finishInf
   split
   · rename_i hpos
-    refine ⟨?_, ?_, fun hs => by simp [mkOut] at hs, fun _ => by simp [mkOut], fun hs => by simp [mkOut] at hs, Or.inl rfl⟩
+    refine ⟨?_, ?_, fun hs => by simp [mkOut] at hs, fun _ => by simp [mkOut], fun hs => by simp [mkOut] at hs, Or.inl rfl,
+      by simp [mkOut]⟩
     · intro m hm
       simp only [mkOut, Option.some.injEq] at hm
       subst hm
@@ -88,52 +136,77 @@ theorem finishInf_good {F as P} (usePure : Bool) (L : Loop) (fuel : Nat)
     split
     · rename_i hcert
       refine ⟨?_, ?_, fun _ => certify_unsat hcnf hE (hnb (by omega)) hasm hcert, fun hs => by simp [mkOut] at hs,
-        fun hs => by simp [mkOut] at hs, Or.inr (Or.inl rfl)⟩
+        fun hs => by simp [mkOut] at hs, Or.inr (Or.inl rfl), by simp [mkOut]⟩
       · intro m hm; simp [mkOut] at hm
       · intro ms hms; simp [mkOut] at hms
-    · exact giveUp_good _ _ _
+    · exact giveUp_good _ _ _ (by decide)
 
 /-- what one iteration must deliver -/
-def StepOK (F : List (List Int)) (as : List Int) (P : Params) : Out ⊕ Loop → Prop
+def StepOK (F : List (List Int)) (as : List Int) (P : Params) (D0 : Nat) (L : Loop) : Out ⊕ Loop → Prop
   | .inl o => OutGood F as P o
-  | .inr L' => LoopInv F as L'
+  | .inr L' => LoopInv F as P D0 L' ∧ L'.iters = L.iters + 1
 
-theorem step_spec {F as} (P : Params) (fuel : Nat) (L : Loop) (h : LoopInv F as L) (r : Out ⊕ Loop)
-    (hs : step P fuel L = r) : StepOK F as P r := by
-  obtain ⟨hgood, hasm, haok, hne, hnv, hH, hE, hnoblk, hafter⟩ := h
-  unfold step at hs
+theorem step_spec {F as} (P : Params) (D0 : Nat) (fuel : Nat) (L : Loop) (h : LoopInv F as P D0 L) (r : Out ⊕ Loop)
+    (hs : step P fuel L = r) : StepOK F as P D0 L r := by
+  obtain ⟨hgood, hasm, haok, hne, hnv, hH, hE, hnoblk, hafter, hnf, cit, clt, ca, cd, clvl, creg⟩ := h
+  rw [step_eq_ref] at hs
+  unfold stepRef at hs
   simp only at hs
   -- what the state after the next `propagate` has to satisfy
-  have close : ∀ (st2 : St) (all : Array (List (Nat × Bool))) (ever : Array (Array Int)),
+  have close : ∀ (st2 : St) (all : Array (List (Nat × Bool))) (ever : Array (Array Int)) (LT it : Nat),
       (∀ m ∈ all.toList, GoodSol F as m) → Ready F st2 → HInv st2 →
       st2.assumptions = as → st2.nVars = L.st.nVars → EInv F st2 ever → (all.size = 0 → st2.nBlocking = 0) →
+      it + D0 = st2.decisions + LT + all.size → LT ≤ st2.conflicts → all.size ≤ P.solutionLimit →
+      st2.decisions ≤ D0 + (LT + all.size) * (st2.nVars + 2) + st2.trail.size →
+      st2.trailLim.size + D0 ≤ st2.decisions →
+      (st2.conflicts < P.maxConflicts ∨
+        LT + st2.trailLim.size ≤ P.maxConflicts + loopDmax P.maxConflicts P.solutionLimit st2.nVars) →
       ∀ (st4 : St) (c : PRes), propagate st2 = (st4, c) →
-      (∀ L' : Loop, L'.st = st4 → L'.conflict = c → L'.all = all → L'.ever = ever → LoopInv F as L') := by
-    intro st2 all ever hall hr hH2 ha2 hn2 hE2 hb2 st4 c hp L' e1 e2 e3 e4
+      (∀ L' : Loop, L'.st = st4 → L'.conflict = c → L'.all = all → L'.ever = ever → L'.learnedTotal = LT →
+        L'.iters = it → LoopInv F as P D0 L') := by
+    intro st2 all ever LT it hall hr hH2 ha2 hn2 hE2 hb2 k1 k2 k3 k4 k5 k6 st4 c hp L' e1 e2 e3 e4 e5 e6
     have haft := propagate_after hr hp
     obtain ⟨ha4, hn4⟩ := propagate_asm hp hr.1
     have hH4 := h_propagate hr.1 hH2
     have hlp := lperm_propagate st2
-    rw [hp] at hH4 hlp
-    exact ⟨by rw [e3]; exact hall, by rw [e1, ha4, ha2], fun a ha => by rw [e1, hn4, hn2]; exact haok a ha, hne,
+    have hcnt := propagate_cnt st2
+    have hnf4 := propagate_nofuel hr.1 hH2
+    obtain ⟨_, ext, _⟩ := propagate_spec hr.1 hp
+    rw [hp] at hH4 hlp hcnt hnf4
+    obtain ⟨q1, _, q3⟩ := hcnt
+    simp only at q1 q3 hnf4
+    have hT2 := hr.1.trailLe
+    have hp1 := pend_le_one c
+    have hts := ext.tsize
+    have hreg := reg_step k2 rfl hp1 k3 k4 hT2 k5 k6
+    refine ⟨by rw [e3]; exact hall, by rw [e1, ha4, ha2], fun a ha => by rw [e1, hn4, hn2]; exact haok a ha, hne,
       by rw [e1, hn4, hn2]; exact hnv, by rw [e1]; exact hH4, by rw [e1, e4]; exact hE2.lperm hlp,
-      by rw [e1, e3]; intro hz; rw [hlp.nb]; exact hb2 hz, by rw [e1, e2]; exact haft⟩
+      by rw [e1, e3]; intro hz; rw [hlp.nb]; exact hb2 hz, by rw [e1, e2]; exact haft,
+      by rw [e2]; exact hnf4, ?_, ?_, by rw [e3]; exact k3, ?_, ?_, ?_⟩
+    · rw [e6, e1, e5, e3, q1]; exact k1
+    · rw [e5, e2, e1, q3]; omega
+    · rw [e1, e5, e3, q1, hn4]; omega
+    · rw [e1, ext.lim, q1]; exact k5
+    · rw [e1, e5, ext.lim, q3, hn4]; exact hreg
+  have hTle : ∀ k, Inv F L.st k → L.st.trail.size ≤ L.st.nVars + 1 := fun k hk => hk.trailLe
   cases hc : L.conflict with
-  | fuel => rw [hc] at hs; simp only at hs; subst hs; exact giveUp_good _ _ _
+  | fuel => exact absurd hc hnf
   | assumption =>
     rw [hc] at hs hafter; simp only at hs; subst hs
     obtain ⟨k, hinv⟩ := hafter
     exact finishInf_good _ _ _ hgood (cnfTrue_stored hinv) hE hnoblk hasm
   | conflict cidx0 =>
-    rw [hc] at hs hafter
+    rw [hc] at hs hafter clt
     simp only at hs
+    have clt' : L.learnedTotal + 1 ≤ L.st.conflicts := clt
     obtain ⟨⟨k, hinv⟩, hz⟩ := hafter
+    have hT := hTle k hinv
     split at hs
     · subst hs; exact finishInf_good _ _ _ hgood (cnfTrue_stored hinv) hE hnoblk hasm
     · -- analyze
       generalize analyze L.st cidx0 = A at hs
       split at hs
-      · subst hs; exact giveUp_good _ _ _
+      · subst hs; exact giveUp_good _ _ _ (by decide)
       · rename_i hok
         have hAok : analysisOk A = true := by simpa using hok
         unfold analysisOk at hAok
@@ -146,6 +219,11 @@ theorem step_spec {F as} (P : Params) (fuel : Nat) (L : Loop) (h : LoopInv F as 
           · obtain ⟨e, w, b, _, _⟩ := applyBumps_core A.bumps.toList L.st
             exact ⟨e, w, b, hinv_applyBumps _ _ hH hAok.1, lperm_applyBumps _ _⟩
         obtain ⟨e1, w1, b1, hH1, hlp1⟩ := hcore
+        have hsh1 : Sh L.st st1 := by
+          subst hst1
+          split
+          · exact Sh.refl _
+          · exact sh_applyBumps _ _
         have hinv1 : Inv F st1 k :=
           inv_frame hinv e1.nVars e1.nOrig e1.clauses e1.vals e1.levels e1.trail e1.trailLim w1 b1
         have hz1 : Z F st1 := e1.Z hz
@@ -157,10 +235,10 @@ theorem step_spec {F as} (P : Params) (fuel : Nat) (L : Loop) (h : LoopInv F as 
         · subst hs; exact finishInf_good _ _ _ hgood (cnfTrue_stored hinv1) hE1 hnb1 hasm1
         · rename_i lc hlc
           split at hs
-          · subst hs; exact giveUp_good _ _ _
+          · subst hs; exact giveUp_good _ _ _ (by decide)
           · rename_i hguard
             split at hs
-            · subst hs; exact giveUp_good _ _ _
+            · subst hs; exact giveUp_good _ _ _ (by decide)
             · rename_i hchain
               have hg : uipOk st1 lc A.btLevel = true := by simpa using hguard
               have hch : chainOk st1 cidx0 A.steps lc = true := by simpa using hchain
@@ -186,7 +264,17 @@ theorem step_spec {F as} (P : Params) (fuel : Nat) (L : Loop) (h : LoopInv F as 
                 einv_learnAndJump hE1 lc (fun hb => chainOk_sound hinv1 hE1 hb hch) _ _
               have hnb2 : L.all.size = 0 → (learnAndJump st1 lc A.btLevel A.lbd).nBlocking = 0 :=
                 fun hz' => by rw [learnAndJump_nb]; exact hnb1 hz'
-              generalize learnAndJump st1 lc A.btLevel A.lbd = st2 at hr ha2 hn2 hs hH2 hE2 hnb2
+              have hbt : A.btLevel < st1.trailLim.size := by
+                have hg' := hg
+                unfold uipOk at hg'
+                simp only [Bool.and_eq_true, decide_eq_true_eq] at hg'
+                exact hg'.2
+              have hc2 := learnAndJump_cnt st1 lc A.btLevel A.lbd
+              generalize learnAndJump st1 lc A.btLevel A.lbd = st2 at hr ha2 hn2 hs hH2 hE2 hnb2 hc2
+              obtain ⟨d2, c2, l2⟩ := hc2
+              have hd1 := hsh1.dec
+              have hcf1 := hsh1.con
+              have hl1 : st1.trailLim.size = L.st.trailLim.size := by rw [hsh1.lim]
               split at hs
               · split at hs
                 · rename_i hrst
@@ -197,24 +285,47 @@ theorem step_spec {F as} (P : Params) (fuel : Nat) (L : Loop) (h : LoopInv F as 
                   have hE3 := einv_restartSt hE2
                   have hnb3 : L.all.size = 0 → (restartSt st2).nBlocking = 0 :=
                     fun hz' => by rw [restartSt_nb]; exact hnb2 hz'
-                  generalize restartSt st2 = st3 at hr3 ha3 hn3 hs hH3 hE3 hnb3
+                  have hc3 := restartSt_cnt st2
+                  generalize restartSt st2 = st3 at hr3 ha3 hn3 hs hH3 hE3 hnb3 hc3
+                  obtain ⟨d3, c3, l3⟩ := hc3
                   generalize hp : propagate st3 = pr at hs
                   obtain ⟨st4, c⟩ := pr
                   subst hs
-                  exact close st3 L.all _ hgood hr3 hH3 (by rw [ha3, ha2, hasm1]) (by rw [hn3, hn2, hnv1]) hE3 hnb3
-                    st4 c hp _ rfl rfl rfl rfl
+                  have hde : st3.decisions = L.st.decisions := by omega
+                  refine ⟨close st3 L.all _ (L.learnedTotal + 1) (L.iters + 1) hgood hr3 hH3 (by rw [ha3, ha2, hasm1])
+                    (by rw [hn3, hn2, hnv1]) hE3 hnb3 (by omega) (by omega) ca ?_ (by omega) ?_
+                    st4 c hp _ rfl rfl rfl rfl rfl rfl, rfl⟩
+                  · rw [hn3, hn2, hnv1, hde]; exact d_step (by omega) cd hT
+                  · rw [hn3, hn2, hnv1]
+                    rcases creg with hq | hq
+                    · exact Or.inl (by omega)
+                    · exact Or.inr (by omega)
               · generalize hp : propagate st2 = pr at hs
                 obtain ⟨st4, c⟩ := pr
                 subst hs
-                exact close st2 L.all _ hgood hr hH2 (by rw [ha2, hasm1]) (by rw [hn2, hnv1]) hE2 hnb2
-                  st4 c hp _ rfl rfl rfl rfl
+                have hde : st2.decisions = L.st.decisions := by omega
+                refine ⟨close st2 L.all _ (L.learnedTotal + 1) (L.iters + 1) hgood hr hH2 (by rw [ha2, hasm1])
+                  (by rw [hn2, hnv1]) hE2 hnb2 (by omega) (by omega) ca ?_ (by omega) ?_
+                  st4 c hp _ rfl rfl rfl rfl rfl rfl, rfl⟩
+                · rw [hn2, hnv1, hde]; exact d_step (by omega) cd hT
+                · rw [hn2, hnv1]
+                  rcases creg with hq | hq
+                  · exact Or.inl (by omega)
+                  · exact Or.inr (by omega)
   | ok =>
-    rw [hc] at hs hafter
+    rw [hc] at hs hafter clt
     simp only at hs
+    have clt' : L.learnedTotal ≤ L.st.conflicts := clt
     obtain ⟨hinv, hph, hz⟩ := hafter
+    have hT := hTle _ hinv
     generalize hpk : pickVar L.st = pk at hs
     obtain ⟨st1, var⟩ := pk
     unfold pickVar at hpk
+    have hsh1 : Sh L.st st1 := by have := sh_pickLoop (L.st.heap.size + 1) L.st; rw [hpk] at this; exact this
+    have hd1 := hsh1.dec
+    have hcf1 := hsh1.con
+    have hl1 : st1.trailLim.size = L.st.trailLim.size := by rw [hsh1.lim]
+    have ht1 : st1.trail.size = L.st.trail.size := by rw [hsh1.tr]
     obtain ⟨e1, w1, b1, hv⟩ := pickLoop_spec _ _ _ _ hpk
     obtain ⟨hHx, htot⟩ := h_pickLoop _ _ _ _ hH (Nat.lt_succ_self _) hpk
     have hlp1 : LPerm L.st st1 := by have := lperm_pickLoop (L.st.heap.size + 1) L.st; rw [hpk] at this; exact this
@@ -242,25 +353,40 @@ theorem step_spec {F as} (P : Params) (fuel : Nat) (L : Loop) (h : LoopInv F as 
       split at hs
       · split at hs
         · subst hs
-          refine ⟨?_, ?_, fun hs => by simp [mkOut] at hs, fun _ => by simp [mkOut], fun hs => by simp [mkOut] at hs, Or.inl rfl⟩
+          refine ⟨?_, ?_, fun hs => by simp [mkOut] at hs, fun _ => by simp [mkOut], fun hs => by simp [mkOut] at hs, Or.inl rfl,
+            by simp [mkOut]⟩
           · intro m hm; simp only [mkOut, Option.some.injEq] at hm; subst hm; exact hsol
           · intro ms hms; simp [mkOut] at hms
         · subst hs
-          refine ⟨?_, ?_, fun hs => by simp [mkOut] at hs, fun _ => by simp [mkOut], fun hs => by simp [mkOut] at hs, Or.inl rfl⟩
+          refine ⟨?_, ?_, fun hs => by simp [mkOut] at hs, fun _ => by simp [mkOut], fun hs => by simp [mkOut] at hs, Or.inl rfl,
+            by simp [mkOut]⟩
           · intro m hm; simp only [mkOut, Option.some.injEq] at hm; subst hm; exact hsol
           · intro ms hms m hm; simp only [mkOut, Option.some.injEq] at hms; subst hms; exact hgood' m hm
-      · split at hs
+      · rename_i hlimit
+        have hsz : (L.all.push (readSol st1)).size = L.all.size + 1 := Array.size_push _
+        have ca' : (L.all.push (readSol st1)).size ≤ P.solutionLimit := by
+          simp only [ge_iff_le, Nat.not_le] at hlimit; omega
+        split at hs
         · subst hs; exact finish_good _ _ _ (Or.inl ⟨rfl, by simp⟩) hgood'
         · obtain ⟨hr, ha2, hn2⟩ := blockSt_ready hinv1 hph1 hz1 (blockingOf st1) (blockingOf_mem st1)
           have hH2 := h_blockSt hH1 (blockingOf st1) (blockingOf_nz st1)
           have hE2 : EInv F (blockSt st1 (blockingOf st1)) L.ever :=
             einv_of_blocked (by rw [blockSt_nb]; omega)
-          generalize blockSt st1 (blockingOf st1) = st2 at hr ha2 hn2 hs hH2 hE2
+          have hc2 := blockSt_cnt st1 (blockingOf st1)
+          generalize blockSt st1 (blockingOf st1) = st2 at hr ha2 hn2 hs hH2 hE2 hc2
+          obtain ⟨d2, c2, l2⟩ := hc2
           generalize hp : propagate st2 = pr at hs
           obtain ⟨st4, c⟩ := pr
           subst hs
-          exact close st2 _ _ hgood' hr hH2 (by rw [ha2, hasm1]) (by rw [hn2, e1.nVars]) hE2
-            (fun hz' => by simp at hz') st4 c hp _ rfl rfl rfl rfl
+          have hde : st2.decisions = L.st.decisions := by omega
+          refine ⟨close st2 _ _ L.learnedTotal (L.iters + 1) hgood' hr hH2 (by rw [ha2, hasm1]) (by rw [hn2, e1.nVars]) hE2
+            (fun hz' => by simp at hz') (by omega) (by omega) ca' ?_ (by omega) ?_
+            st4 c hp _ rfl rfl rfl rfl rfl rfl, rfl⟩
+          · rw [hn2, e1.nVars, hde, hsz]; exact d_step (by omega) cd hT
+          · rw [hn2, e1.nVars]
+            rcases creg with hq | hq
+            · exact Or.inl (by omega)
+            · exact Or.inr (by omega)
     · -- a decision
       rename_i hvar
       have hu : valAt st1 var = UNDEF := by
@@ -271,28 +397,57 @@ theorem step_spec {F as} (P : Params) (fuel : Nat) (L : Loop) (h : LoopInv F as 
       have hvarne : var ≠ 0 := fun e => hvar (by simpa using e)
       have hH2 := h_decideSt hHx hvarne (le_nVars_of_undef hHx hu)
       have hlp2 := hlp1.trans (lperm_decideSt st1 var)
-      generalize decideSt st1 var = st2 at hr ha2 hn2 hs hH2 hlp2
+      have hc2 := decideSt_cnt st1 var
+      generalize decideSt st1 var = st2 at hr ha2 hn2 hs hH2 hlp2 hc2
+      obtain ⟨d2, c2, l2, t2⟩ := hc2
       generalize hp : propagate st2 = pr at hs
       obtain ⟨st4, c⟩ := pr
       simp only at hs
       split at hs
       · rename_i hcf
         subst hs; exact finish_good _ _ _ (Or.inr ⟨rfl, Or.inl hcf⟩) hgood
-      · subst hs
-        exact close st2 L.all _ hgood hr hH2 (by rw [ha2, hasm1]) (by rw [hn2, e1.nVars]) (hE.lperm hlp2)
-          (fun hz' => by rw [hlp2.nb]; exact hnoblk hz') st4 c hp _ rfl rfl rfl rfl
+      · rename_i hcf
+        subst hs
+        have hcnt := propagate_cnt st2
+        rw [hp] at hcnt
+        have q3 : st4.conflicts = st2.conflicts + pend c := hcnt.2.2
+        have hlt : st2.conflicts < P.maxConflicts := by simp only [ge_iff_le, Nat.not_le] at hcf; omega
+        refine ⟨close st2 L.all _ L.learnedTotal (L.iters + 1) hgood hr hH2 (by rw [ha2, hasm1]) (by rw [hn2, e1.nVars]) (hE.lperm hlp2)
+          (fun hz' => by rw [hlp2.nb]; exact hnoblk hz') (by omega) (by omega) ca ?_ (by omega) (Or.inl hlt)
+          st4 c hp _ rfl rfl rfl rfl rfl rfl, rfl⟩
+        rw [hn2, e1.nVars]; omega
 
-theorem run_spec {F as} (P : Params) (fuel0 : Nat) : ∀ (fuel : Nat) (L : Loop), LoopInv F as L →
+theorem LoopInv.iters_lt {F as P D0 L} (h : LoopInv F as P D0 L) :
+    L.iters < loopFuel P.maxConflicts P.solutionLimit L.st.nVars := by
+  have hT : L.st.trail.size ≤ L.st.nVars + 1 := by
+    have ha := h.after
+    cases hc : L.conflict with
+    | ok => rw [hc] at ha; exact ha.1.trailLe
+    | conflict i => rw [hc] at ha; obtain ⟨⟨k, hk⟩, _⟩ := ha; exact hk.trailLe
+    | assumption => rw [hc] at ha; obtain ⟨k, hk⟩ := ha; exact hk.trailLe
+    | fuel => exact absurd hc h.nf
+  exact Cdcl.iters_lt h.c_it h.c_lt h.c_a h.c_d hT h.c_reg
+
+/-- the loop, started with enough fuel for the iterations still to come, ends in a good result – in
+particular not through its `FUEL` exit -/
+theorem run_spec {F as} (P : Params) (D0 : Nat) (fuel0 : Nat) : ∀ (fuel : Nat) (L : Loop), LoopInv F as P D0 L →
+    loopFuel P.maxConflicts P.solutionLimit L.st.nVars ≤ L.iters + fuel →
     OutGood F as P (run P fuel0 fuel L) := by
   intro fuel
   induction fuel with
-  | zero => intro L _; exact giveUp_good _ _ _
+  | zero => intro L h hf; have := h.iters_lt; omega
   | succ fuel ih =>
-    intro L h
+    intro L h hf
     unfold run
-    have := step_spec P fuel0 L h _ rfl
+    have := step_spec P D0 fuel0 L h _ rfl
     split
     · rename_i o ho; rw [ho] at this; exact this
-    · rename_i L' hL; rw [hL] at this; exact ih L' this
+    · rename_i L' hL
+      rw [hL] at this
+      obtain ⟨h', hit⟩ := this
+      refine ih L' h' ?_
+      have e1 := h.nv
+      have e2 := h'.nv
+      rw [e2, ← e1]; omega
 
 end Solvor.Sat.Cdcl
